@@ -482,6 +482,7 @@ func TestC06(t *testing.T) {
 			"a case is one configuration with hits and processed invalidations")
 	defer run.Finish()
 	run.Assume("fakeredis queues a reply at execution time and invalidation pushes at the writer's execution time, as Redis does, so log order is wire order per connection", "values are unique per write", "Go race detector on")
+	storeWindow(run)
 	readers, ops := 8, 400
 	if !run.Quick() {
 		readers, ops = 16, 6000
@@ -510,7 +511,7 @@ func TestC06(t *testing.T) {
 		cfg.seed = run.Seed*100 + int64(i)
 		runConfig(run, cfg)
 	}
-	run.Require("hits_checked", "invalidations_processed_by_client", "invalidation_pushes_on_wire", "connections_lost",
+	run.Require("store_window_second_fetch_registered_next_to_stored_reply", "hits_checked", "invalidations_processed_by_client", "invalidation_pushes_on_wire", "connections_lost",
 		"mixed_batch_static_members_fetched_on_wire_adapter", "hits_following_fetch_by_static_member_of_mixed_batch_adapter",
 		"mixed_batch_static_members_fetched_on_wire_lru", "hits_following_fetch_by_static_member_of_mixed_batch_lru")
 	_ = drv.Tail
